@@ -219,7 +219,8 @@ theorem selPlaneMesh_ok (m : Mesh) (hm : m.Inv) (hs : m.subs = []) (a : Nat) (ha
 
 theorem selRangeMesh_ok (m : Mesh) (hm : m.Inv) (hs : m.subs = []) (a : Nat) (ha : a < m.ndim)
     (k1 k2 : Nat) (hk : k1 ≤ k2) (hk2 : k2 < m.nAt a) :
-    ∃ g, selRangeMesh m a (m.centreAx a (k1 : Int)) (m.centreAx a (k2 : Int)) = .ok g := by
+    ∃ g, selRangeMesh m a (m.centreAx a (k1 : Int)) (m.centreAx a (k2 : Int)) = .ok g ∧
+      g.n = setAt m.n a (k2 - k1 + 1) := by
   unfold selRangeMesh
   rw [hs]
   simp only [rangeSubs]
@@ -271,7 +272,7 @@ theorem selRangeMesh_ok (m : Mesh) (hm : m.Inv) (hs : m.subs = []) (a : Nat) (ha
         show m.cellAt b = ((setAt m.region.pmax a _).getD b 0 - (setAt m.region.pmin a _).getD b 0) / _
         rw [getD_setAt_ne _ _ _ _ _ hba, getD_setAt_ne _ _ _ _ _ hba]; rfl)]
   simp only
-  exact ⟨_, setSubs_nil _ rfl⟩
+  exact ⟨_, setSubs_nil _ rfl, rfl⟩
 
 /-- the upper index of a box inside the region is a valid index, not below the lower one -/
 theorem upperIdx_range (m : Mesh) (hm : m.Inv) (item : Region) (hbox : BoxIn m item) (a : Nat) (ha : a < m.ndim) :
@@ -302,7 +303,8 @@ theorem upperIdx_range (m : Mesh) (hm : m.Inv) (item : Region) (hbox : BoxIn m i
   omega
 
 theorem getRegion_ok (m : Mesh) (hm : m.Inv) (item : Region) (hbox : BoxIn m item)
-    (hpm : item.pmax.length = m.ndim) : ∃ g, getRegion m item = .ok g := by
+    (hpm : item.pmax.length = m.ndim) :
+    ∃ g, getRegion m item = .ok g ∧ g.n = tab m.ndim fun a => blockHi m item a - blockLo m item a + 1 := by
   unfold getRegion
   have hcr : m.region.containsReg item = true := by
     unfold Region.containsReg
@@ -393,6 +395,151 @@ theorem getRegion_ok (m : Mesh) (hm : m.Inv) (item : Region) (hbox : BoxIn m ite
           obtain ⟨_, _, h3⟩ := upperIdx_range m hm item hbox a ha'
           have : (m.indexAx a (item.lo a) : Rat) ≤ (upperIdx m a (item.hi a) : Rat) := by exact_mod_cast h3
           intro hcon; linarith
-        field_simp; ring)⟩
+        field_simp; ring), rfl⟩
+
+theorem padCorners_ok (m : Mesh) (pw : List PadW) (h : ∀ w, w ∈ pw → ∃ a, m.region.dim2index w.dim = .ok a)
+    (pmin pmax : List Rat) : ∃ pp, padCorners m pw pmin pmax = .ok pp := by
+  induction pw generalizing pmin pmax with
+  | nil => exact ⟨_, rfl⟩
+  | cons w rest ih =>
+    obtain ⟨a, ha⟩ := h w (List.mem_cons_self ..)
+    unfold padCorners
+    rw [ha]
+    exact ih (fun w' hw' => h w' (List.mem_cons_of_mem _ hw')) _ _
+
+theorem padMesh_ok (m : Mesh) (hm : m.Inv) (pw : List PadW)
+    (hdims : ∀ w, w ∈ pw → ∃ a, m.region.dim2index w.dim = .ok a)
+    (hL : ∀ b, b < m.ndim → 0 ≤ sumW m (·.lo) pw b) (hH : ∀ b, b < m.ndim → 0 ≤ sumW m (·.hi) pw b)
+    (hbc : Mesh.bcOk m.region.dims m.bc.toLower = true) :
+    ∃ g, padMesh m pw = .ok g ∧
+      g.n = tab m.ndim fun b => m.nAt b + (sumW m (·.lo) pw b).toNat + (sumW m (·.hi) pw b).toNat := by
+  unfold padMesh
+  obtain ⟨pp, hpp⟩ := padCorners_ok m pw hdims m.region.pmin m.region.pmax
+  obtain ⟨p1, p2⟩ := pp
+  rw [hpp]
+  simp only
+  obtain ⟨c1, c2, c3, c4⟩ := padCorners_inv m pw _ _ p1 p2 hpp
+  have hp1 : p1.length = m.ndim := c1
+  have hp2 : p2.length = m.ndim := by rw [c2]; exact inv_pmax_length hm
+  have hLr : ∀ b, b < m.ndim → ((sumW m (·.lo) pw b).toNat : Rat) = (sumW m (·.lo) pw b : Rat) := by
+    intro b hb
+    have : ((sumW m (·.lo) pw b).toNat : Int) = sumW m (·.lo) pw b := Int.toNat_of_nonneg (hL b hb)
+    exact_mod_cast this
+  have hHr : ∀ b, b < m.ndim → ((sumW m (·.hi) pw b).toNat : Rat) = (sumW m (·.hi) pw b : Rat) := by
+    intro b hb
+    have : ((sumW m (·.hi) pw b).toNat : Int) = sumW m (·.hi) pw b := Int.toNat_of_nonneg (hH b hb)
+    exact_mod_cast this
+  have hq1 : ∀ b, b < m.ndim → p1.getD b 0 = m.region.lo b - ((sumW m (·.lo) pw b).toNat : Rat) * m.cellAt b := by
+    intro b hb; rw [c3 b hb, hLr b hb]; rfl
+  have hq2 : ∀ b, b < m.ndim → p2.getD b 0 = m.region.hi b + ((sumW m (·.hi) pw b).toNat : Rat) * m.cellAt b := by
+    intro b hb; rw [c4 b (by rw [inv_pmax_length hm]; exact hb), hHr b hb]; rfl
+  have hlt : ∀ b, b < m.ndim → p1.getD b 0 < p2.getD b 0 := by
+    intro b hb
+    rw [hq1 b hb, hq2 b hb]
+    have hc := inv_cell_pos hm hb
+    have := inv_lo_lt_hi hm hb
+    have h1 : (0 : Rat) ≤ ((sumW m (·.lo) pw b).toNat : Rat) := by exact_mod_cast Nat.zero_le _
+    have h2 : (0 : Rat) ≤ ((sumW m (·.hi) pw b).toNat : Rat) := by exact_mod_cast Nat.zero_le _
+    nlinarith
+  rw [regionMk_ok p1 p2 _ _ _ (by rw [hp1, hp2]) (by rw [hp1]; exact inv_ndim_pos hm)
+    (by rw [hp1]; exact inv_dims_length hm) hm.1.2.2.2.2.1 (by rw [hp1]; exact inv_units_length hm)
+    (by intro b hb; rw [hp1] at hb; exact hlt b hb)]
+  simp only
+  refine ⟨_, mkCell_ok _ (tab m.ndim fun b => m.nAt b + (sumW m (·.lo) pw b).toNat + (sumW m (·.hi) pw b).toNat) _ _
+    (by rw [cell_length]; exact hp1.symm) (by rw [tab_length]; exact hp1.symm) hbc
+    (by
+      intro b hb
+      have hb' : b < m.ndim := by have : b < p1.length := hb; omega
+      rw [getD_tab _ _ _ _ hb']
+      have hn := inv_n_pos hm hb'
+      refine ⟨by omega, hlt b hb', ?_⟩
+      rw [cell_getD m _ hb']
+      show m.cellAt b = (p2.getD b 0 - p1.getD b 0) / _
+      rw [hq1 b hb', hq2 b hb', hi_eq m b hn]
+      have hne : ((m.nAt b + (sumW m (·.lo) pw b).toNat + (sumW m (·.hi) pw b).toNat : Nat) : Rat) ≠ 0 := by
+        have : 0 < m.nAt b + (sumW m (·.lo) pw b).toNat + (sumW m (·.hi) pw b).toNat := by omega
+        exact_mod_cast this.ne'
+      field_simp
+      push_cast; ring), rfl⟩
+
+/-- `field[item]` succeeds once the extracted mesh is a block of whole cells on every axis -/
+theorem getItem_ok_of_block (f : Fld) (hf : FldWF f) (item : Item) (sm : Mesh)
+    (hgm : getMesh f.mesh item = .ok sm) (e1 : sm.ndim = f.mesh.ndim)
+    (off cnt : Nat → Nat) (hcnt : ∀ b, b < f.mesh.ndim → 0 < cnt b)
+    (hblk : ∀ b, b < f.mesh.ndim → AxisBlock sm f.mesh b b (off b) (cnt b))
+    (hsn : sm.n = tab f.mesh.ndim cnt) : ∃ g, getItem f item = .ok g := by
+  obtain ⟨hinv, hds, hvs⟩ := hf
+  unfold getItem
+  rw [hgm]
+  simp only
+  rw [index2point_eq sm _ (by simp) (by
+    intro b hb
+    rw [getD_replicate_zero]
+    have hlt := (hblk b (by omega)).n
+    have := hcnt b (by omega)
+    constructor
+    · omega
+    · have : 0 < sm.nAt b := by rw [hlt]; exact this
+      exact_mod_cast this)]
+  simp only
+  have hcen : ∀ b, b < f.mesh.ndim →
+      f.mesh.indexAx b ((tab sm.ndim fun a => sm.centreAx a ((List.replicate sm.ndim (0 : Int)).getD a 0)).getD b 0)
+        = off b ∧
+      f.mesh.region.lo b ≤ (tab sm.ndim fun a => sm.centreAx a ((List.replicate sm.ndim (0 : Int)).getD a 0)).getD b 0 ∧
+      (tab sm.ndim fun a => sm.centreAx a ((List.replicate sm.ndim (0 : Int)).getD a 0)).getD b 0 ≤ f.mesh.region.hi b := by
+    intro b hb
+    rw [getD_tab _ _ _ _ (by omega), getD_replicate_zero]
+    have := block_index (hblk b hb) (inv_cell_pos hinv hb) 0 (hcnt b hb)
+    simpa using this
+  rw [point2index_eq f.mesh _ (by rw [tab_length]; exact e1) (fun b hb => (hcen b hb).2)]
+  simp only
+  unfold mkFld
+  have hshape : ∀ (sh : List Nat), sh = f.mesh.n →
+      (tab sh.length fun b =>
+        min ((tab f.mesh.ndim fun a => f.mesh.indexAx a ((tab sm.ndim fun a => sm.centreAx a
+          ((List.replicate sm.ndim (0 : Int)).getD a 0)).getD a 0)).getD b 0 + sm.n.getD b 0) (sh.getD b 0)
+        - min ((tab f.mesh.ndim fun a => f.mesh.indexAx a ((tab sm.ndim fun a => sm.centreAx a
+          ((List.replicate sm.ndim (0 : Int)).getD a 0)).getD a 0)).getD b 0) (sh.getD b 0)) = sm.n := by
+    intro sh hsh
+    subst hsh
+    rw [hsn, inv_n_length hinv]
+    apply tab_congr
+    intro b hb
+    rw [getD_tab _ _ _ _ hb, (hcen b hb).1, getD_tab _ _ _ _ hb]
+    have hfit := (hblk b hb).fits
+    have : f.mesh.n.getD b 0 = f.mesh.nAt b := rfl
+    rw [this]
+    omega
+  rw [if_neg (by
+    intro hcon
+    rcases hcon with hcon | hcon
+    · exact hcon (hshape f.data.shape hds)
+    · exact hcon (hshape f.valid.shape hvs))]
+  exact ⟨_, rfl⟩
+
+theorem getName_ok (m : Mesh) (hm : m.Inv) (name : String) (s : Region) (hfind : findSub m.subs name = some s)
+    (k1 k2 : Nat → Nat) (hal : SubAligned m s k1 k2) :
+    ∃ g, getName m name = .ok g ∧ g.n = tab m.ndim fun a => k2 a - k1 a := by
+  unfold getName
+  rw [hfind]
+  simp only
+  obtain ⟨s1, s2, s3⟩ := hal
+  refine ⟨_, mkCell_ok_nobc s (tab m.ndim fun a => k2 a - k1 a) m.cell (by rw [cell_length, s1])
+    (by rw [tab_length, s1]) (by
+      intro a ha
+      rw [s1] at ha
+      obtain ⟨t1, t2, t3, t4⟩ := s3 a ha
+      have hc := inv_cell_pos hm ha
+      have h12 : (k1 a : Rat) < (k2 a : Rat) := by exact_mod_cast t1
+      rw [getD_tab _ _ _ _ ha]
+      refine ⟨by omega, by rw [t3, t4]; nlinarith, ?_⟩
+      rw [cell_getD m _ ha]
+      unfold Region.edge
+      rw [t3, t4]
+      have hcast : ((k2 a - k1 a : Nat) : Rat) = (k2 a : Rat) - (k1 a : Rat) := by
+        push_cast [Nat.cast_sub t1.le]; ring
+      rw [hcast]
+      have hne : (k2 a : Rat) - (k1 a : Rat) ≠ 0 := by intro hcon; linarith
+      field_simp; ring), rfl⟩
 
 end DFV.C07
